@@ -300,6 +300,8 @@ pub const DIRECTED: &[&str] = &[
     "free-twice-each-type",
     "consume-then-free",
     "reissued-address-free",
+    "context-signer-chain",
+    "embeddable-chain",
 ];
 
 /// Directed histories.  Those that pass a dangling pointer to an argument the library may not
@@ -491,6 +493,53 @@ pub fn directed(h: &mut Hist, name: &str) {
                 h.step(call("c2pa_free", vec![A::Slot { slot: a, intent: "freed".into() }]));
                 h.step(call("c2pa_free", vec![A::Slot { slot: a, intent: "freed".into() }]));
                 let _ = news;
+            }
+        }
+        "context-signer-chain" => {
+            // signer and settings end up owned by a context; signing through the context; then
+            // everything is released once (the sanitizer engines see a double drop of the signer)
+            let se = h.step(call("c2pa_settings_new", vec![])).new_slot;
+            let cb = h.step(call("c2pa_context_builder_new", vec![])).new_slot;
+            let sg = h.step(call("c2pa_signer_create", vec![st("pem:ed25519"), st("null")])).new_slot;
+            if let (Some(se), Some(cb), Some(sg)) = (se, cb, sg) {
+                h.step(call("c2pa_settings_update_from_string", vec![slot(se), st("set:json"), st("sf:json")]));
+                h.step(call("c2pa_context_builder_set_settings", vec![slot(cb), slot(se)]));
+                h.step(call("c2pa_context_builder_set_signer", vec![slot(cb), slot(sg)]));
+                h.step(call("c2pa_context_builder_set_progress_callback", vec![slot(cb)]));
+                if let Some(ctx) = h.step(call("c2pa_context_builder_build", vec![slot(cb)])).new_slot {
+                    let b = h.step(call("c2pa_builder_from_context", vec![slot(ctx)])).new_slot;
+                    let src = h.step(call("c2pa_create_stream", vec![content("jpeg")])).new_slot;
+                    let dst = h.step(call("c2pa_create_stream", vec![content("empty")])).new_slot;
+                    if let (Some(b), Some(src), Some(dst)) = (b, src, dst) {
+                        if let Some(b2) = h.step(call("c2pa_builder_with_definition", vec![slot(b), st("mj:full")])).new_slot {
+                            h.step(call("c2pa_builder_sign_context", vec![slot(b2), st("fmt:jpeg"), slot(src), slot(dst), A::Out { valid: true }]));
+                            h.step(call("c2pa_free", vec![slot(ctx)]));
+                            // the builder still shares the context: signing again must still work or fail cleanly
+                            let src2 = h.step(call("c2pa_create_stream", vec![content("jpeg")])).new_slot;
+                            let dst2 = h.step(call("c2pa_create_stream", vec![content("empty")])).new_slot;
+                            if let (Some(s2), Some(d2)) = (src2, dst2) {
+                                h.step(call("c2pa_builder_sign_context", vec![slot(b2), st("fmt:jpeg"), slot(s2), slot(d2), A::Out { valid: true }]));
+                                if let Some(r) = h.step(call("c2pa_reader_from_stream", vec![st("fmt:jpeg"), slot(d2)])).new_slot {
+                                    h.step(call("c2pa_reader_json", vec![slot(r)]));
+                                }
+                            }
+                        }
+                    }
+                }
+            }
+            h.step(call("c2pa_load_settings", vec![st("set:signer"), st("sf:json")]));
+            h.step(call("c2pa_signer_from_settings", vec![]));
+        }
+        "embeddable-chain" => {
+            let b = h.step(call("c2pa_builder_from_json", vec![st("mj:full")])).new_slot;
+            let sg = h.step(call("c2pa_signer_from_info", vec![A::Info { key: "ed25519".into() }])).new_slot;
+            let s = h.step(call("c2pa_create_stream", vec![content("jpeg")])).new_slot;
+            if let (Some(b), Some(sg), Some(s)) = (b, sg, s) {
+                h.step(call("c2pa_builder_data_hashed_placeholder", vec![slot(b), A::Num { v: 20000 }, st("fmt:jpeg"), A::Out { valid: true }]));
+                h.step(call("c2pa_builder_sign_data_hashed_embeddable", vec![slot(b), slot(sg), st("dh:ok"), st("fmt:jpeg"), A::Null, A::Out { valid: true }]));
+                h.step(call("c2pa_builder_sign_data_hashed_embeddable", vec![slot(b), slot(sg), st("dh:ok"), st("fmt:jpeg"), slot(s), A::Out { valid: true }]));
+                h.step(call("c2pa_builder_hash_type", vec![slot(b), st("fmt:jpeg"), A::Out { valid: true }]));
+                h.step(call("c2pa_format_embeddable", vec![st("fmt:jpeg"), A::Buf { key: "mb:ok".into() }, A::Out { valid: true }]));
             }
         }
         other => panic!("unknown directed history {other}"),
